@@ -425,7 +425,7 @@ def calc_direct_sum(matrices: List[np.ndarray]) -> np.ndarray:
             raise ValueError(
                 "``matrices`` must consist of matrices(dim=2). dim of matrices[{i}] is {diag.ndim}"
             )
-        if diag.shape[0] != diag.shape[0]:
+        if diag.shape[0] != diag.shape[1]:
             raise ValueError(
                 "``matrices`` must consist of square matrices. shape of matrices[{i}] is {diag.shape}"
             )
